@@ -21,6 +21,15 @@ Proof.
   intros H. apply shape_eqb_eq in H. rewrite H. reflexivity.
 Qed.
 
+(* a 0-d factor leaves every shape as it is *)
+Lemma bcast_nil_l sh : broadcast_shapes [] sh = Some sh.
+Proof. unfold broadcast_shapes. cbn. rewrite rev_involutive. reflexivity. Qed.
+Lemma bcast_nil_struct st : oseq (map (fun leaf => broadcast_shapes [] leaf) st) = Some st.
+Proof. induction st as [|sh st IH]; cbn [map oseq]; [reflexivity|]. rewrite bcast_nil_l, IH. reflexivity. Qed.
+(* the scalar check of __rmul__ / __truediv__ accepts exactly the 0-d factors *)
+Lemma scale_ctor_iff v : scale_ctor v = CtorOk <-> v = [].
+Proof. destruct v; cbn; split; intros H; try reflexivity; discriminate. Qed.
+
 (* flat index = leaf * N + pixel *)
 Lemma flat_div l N t : 0 <= t < N -> (l * N + t) / N = l.
 Proof. intros. rewrite Z.div_add_l by lia. rewrite Z.div_small by lia. lia. Qed.
@@ -386,7 +395,7 @@ Section L.
   Lemma identity_diagonal st : m_diagonal (cm_mat K cm_identity st).
   Proof. apply (scaled_diag _ (fun _ => k1)). intros. apply id_factor. Qed.
   Lemma homothety_diagonal p : m_diagonal (cm_mat K cm_homothety p).
-  Proof. apply (scaled_diag _ (fun _ => fst p)). intros. reflexivity. Qed.
+  Proof. apply (scaled_diag _ (fun _ => hm_value K p)). intros. reflexivity. Qed.
   Lemma diagonal_diagonal p : m_diagonal (cm_mat K cm_diagonal p).
   Proof. apply (scaled_diag _ (dg_vals K p)). intros. reflexivity. Qed.
   Lemma diagonal_inverse_diagonal p : m_diagonal (cm_mat K cm_diagonal_inverse p).
@@ -498,7 +507,8 @@ Section L.
     - intros p _. apply identity_orthogonal.
     - apply sem_cm_square. intros p _. split; reflexivity.
     (* CHomothety *)
-    - apply sem_cm_square. intros p _. split; reflexivity.
+    - apply sem_cm_square. intros p Hp. split; [reflexivity|]. cbn in *. unfold hm_out. rewrite Hp.
+      apply bcast_nil_struct.
     (* CDiagonal *)
     - apply sem_cm_square. intros p Hp. split; [reflexivity|]. apply dg_square. exact Hp.
     (* CDiagonalInverse *)
@@ -610,7 +620,7 @@ Proof.
 Qed.
 Lemma homothety_not_orthogonal : ~ semZ QInvIsT CHomothety.
 Proof.
-  intros H. destruct (H (2, [[1]]) I) as [[_ Hs] _].
+  intros H. destruct (H (mkHm Z 2 [] [[1]]) eq_refl) as [[_ Hs] _].
   destruct (Hs 0 0 ltac:(unfold inr; vm_compute; split; [discriminate | reflexivity]) ltac:(unfold inr; vm_compute; split; [discriminate | reflexivity])) as [H1 _]. cbn in H1. discriminate.
 Qed.
 (* a relabelling that is not an involution is not symmetric: the 3-cycle *)
@@ -639,6 +649,24 @@ Lemma qurot_square_needs_guard :
   not_wider (qr_shape Z p) (qr_ashape Z p) = false /\
   cm_in Z (cm_qurot Z 0 1 Z.add Z.mul Z.sub) p = [[3]; [3]] /\
   cm_out Z (cm_qurot Z 0 1 Z.add Z.mul Z.sub) p = Some [[2; 3]; [2; 3]].
+Proof. repeat split. Qed.
+(* HomothetyOperator: a value that is not 0-d makes mv return leaves of another shape (a (1,) factor
+   on a 0-d leaf, a (1, 1) factor on a 1-d leaf) - the guard is needed, and the scalar check of the
+   public construction paths is what provides it *)
+Lemma homothety_square_needs_guard :
+  let p := mkHm Z 2 [1] [[]; [2; 3]] in
+  let q := mkHm Z 2 [1; 1] [[3]] in
+  cm_in Z (cm_homothety Z 0 1 Z.mul) p = [[]; [2; 3]] /\
+  cm_out Z (cm_homothety Z 0 1 Z.mul) p = Some [[1]; [2; 3]] /\
+  cm_in Z (cm_homothety Z 0 1 Z.mul) q = [[3]] /\
+  cm_out Z (cm_homothety Z 0 1 Z.mul) q = Some [[1; 3]].
+Proof. repeat split. Qed.
+Lemma scaled_homothety_legal (K : Type) (k0 k1 : K) kmul v :
+  scale_ctor v = CtorOk -> forall k st, cm_legal K (cm_homothety K k0 k1 kmul) (mkHm K k v st).
+Proof. intros H k st. cbn. apply scale_ctor_iff. exact H. Qed.
+Lemma scale_ctor_rejects_arrays :
+  scale_ctor [] = CtorOk /\ scale_ctor [1] = CtorValueError /\ scale_ctor [1; 1] = CtorValueError /\
+  scale_ctor [2] = CtorValueError.
 Proof. repeat split. Qed.
 (* the constructor checks of DiagonalOperator and of the observation matrix reject exactly that *)
 Lemma diagonal_ctor_rejects_wider :
